@@ -8,7 +8,7 @@ stdin : {"inputs": "<npz path>", "outputs": "<npz path>", "cases": [{"id": k, "o
            | {"op": "lprmsd", "frame", "atom_indices", "permute_groups", "parallel"}
            | {"op": "invalid", "call": "rmsd"|"rmsf"|"superpose", ...same arguments}   (must raise)
            | {"op": "history", "steps": [...], "ref": "self"|"other", "ref_steps": [...], "frame", "parallel"}
-             (steps: center | center_mass | join | superpose | slice | atom_slice | xyz_assign | inplace_shift; extra arrays
+             (steps: center | center_mass | join | superpose | slice | atom_slice | xyz_assign | inplace_partial | view_superpose | inplace_shift; extra arrays
               c<k>_o<j>_nopre/_xyz/_rxyz/_flags)
 stdout: last line {"ok": true, "errors": {"c<k>_o<j>": "ExcName: text"}}; result arrays c<k>_o<j> in the output npz.
 Only mdtraj is exercised here; every comparison happens in harness/props/C06.py.
@@ -75,12 +75,19 @@ def run_op(op, target, ref):
     raise ValueError("unknown op %r" % kind)
 
 
+CENTROIDS = []      # [largest |centroid component| after, largest |coordinate| before, traces present] per center_coordinates() call
+
+
 def apply_steps(t, steps, ref):
     """Short history of public-API operations on a Trajectory (and one user edit, "inplace_shift")."""
     for st in steps:
         k = st[0]
         if k == "center":
+            before = float(np.abs(np.asarray(t.xyz, dtype=np.float64)).max()) if t.n_frames else 0.0
             t.center_coordinates()
+            if t.n_frames:
+                after = float(np.abs(np.asarray(t.xyz, dtype=np.float64).mean(1)).max())
+                CENTROIDS.append([after, before, 1.0 if t._rmsd_traces is not None else 0.0])
         elif k == "superpose":
             _k, centred, frame, ai, ri, par = st
             r = make_traj(ref)
@@ -107,6 +114,11 @@ def apply_steps(t, steps, ref):
             t = t.atom_slice(st[1], inplace=bool(st[2])) or t
         elif k == "xyz_assign":
             t.xyz = t.xyz + np.asarray(st[1], dtype=np.float32)
+        elif k == "inplace_partial":        # write through the array the getter returns: first st[1] atoms move, cache untouched
+            t.xyz[:, :int(st[1])] += np.asarray(st[2], dtype=np.float32)
+        elif k == "view_superpose":         # API only: a no-copy slice shares memory; superposing it moves the parent's frames
+            v = t.slice(slice(st[1], st[2]), copy=False)
+            v.superpose(make_traj(ref), int(st[3]) % len(ref))
         elif k == "inplace_shift":          # user edit behind the back of the object (documented as unsafe)
             t.xyz[:] += np.asarray(st[1], dtype=np.float32)
         else:
@@ -117,6 +129,7 @@ def apply_steps(t, steps, ref):
 def run_history(op, target, ref):
     """rmsd(..., precentered=True) on trajectories that reached their state through a history, next to the same
     call with precentered=False on fresh copies of the final coordinates."""
+    del CENTROIDS[:]
     t = apply_steps(make_traj(target), op["steps"], ref)
     if op.get("ref") == "self":
         r = t
@@ -130,7 +143,8 @@ def run_history(op, target, ref):
     t2 = make_traj(txyz)
     r2 = t2 if op.get("ref") == "self" else make_traj(rxyz)
     nopre = np.asarray(md.rmsd(t2, r2, frame, parallel=bool(op.get("parallel", True)), precentered=False), dtype=np.float64)
-    return {"value": pre, "nopre": nopre, "xyz": txyz, "rxyz": rxyz, "flags": flags}
+    cen = np.array(CENTROIDS, dtype=np.float64).reshape(-1, 3)
+    return {"value": pre, "nopre": nopre, "xyz": txyz, "rxyz": rxyz, "flags": flags, "cen": cen}
 
 
 def main():
